@@ -10,7 +10,7 @@ from fractions import Fraction
 
 import numpy as np
 
-from hyverif.core import digest, size_edges
+from hyverif.core import digest, same_result, size_edges
 
 ID = "C04"
 SHARDS = {"quick": 8, "thorough": 16}
@@ -223,6 +223,24 @@ def run_scores_case(ctx, case):
         tov, tsv = to[ok], ts[ok]
     else:
         if not ok.all():
+            # without excludenull a missing value in either transformed series makes
+            # every mean / sum of the definitions missing: the scores are NaN, never a
+            # number computed from part of the data
+            if not (np.isinf(to).any() or np.isinf(ts).any()) and len(obs) >= 2 \
+                    and cond(to[np.isfinite(to)]) is not None:
+                ctx.tag("nan-without-excludenull")
+                outs = {"nse": call(m.nse, obs, sim, trans, False),
+                        "kge": call(m.kge, obs, sim, trans, False)}
+                for typ in ("standard", "normalised", "log"):
+                    outs["bias-" + typ] = call(m.bias, obs, sim, trans, False, typ)
+                ctx.api("scores", 5)
+                bad = {k: repr(v) for k, v in outs.items()
+                       if not (isinstance(v, float) and math.isnan(v))}
+                ctx.check("scores.nan-propagates", not bad,
+                          "scores|number-returned-for-series-with-missing-values", case,
+                          lambda: {"not_nan": bad,
+                                   "nan_in_obs": bool(np.isnan(to).any()),
+                                   "nan_in_sim": bool(np.isnan(ts).any())})
             return
         tov, tsv = to, ts
     if len(tov) < 2:
@@ -305,6 +323,31 @@ def run_scores_case(ctx, case):
         basev = allscores(obs.copy(), sim.copy())
     except Exception:
         basev = None
+    if basev is not None:
+        # the documented shapes of a series: [n] vector or [n, 1] column, in any mix,
+        # and single-column data frames. A shape may be refused; a number, if given, is
+        # the score
+        import pandas as _pd
+        forms = {"col-col": (obs[:, None], sim[:, None]), "vec-col": (obs, sim[:, None]),
+                 "col-vec": (obs[:, None], sim),
+                 "frame-frame": (_pd.DataFrame({"obs": obs}), _pd.DataFrame({"sim": sim})),
+                 "series-frame": (_pd.Series(obs), _pd.DataFrame({"sim": sim}))}
+        fnm = list(forms)[(len(obs) + int(excl)) % len(forms)]
+        fo, fs_ = forms[fnm]
+        atol_ = 1e-10 * c * (1 + float(np.max(np.abs(tov))) + float(np.max(np.abs(tsv))))
+        for j_, (nm_, f_) in enumerate((("nse", lambda o, s_: m.nse(o, s_, trans, excl)),
+                                        ("kge", lambda o, s_: m.kge(o, s_, trans, excl)),
+                                        ("bias", lambda o, s_: m.bias(o, s_, trans, excl,
+                                                                      "standard")))):
+            ctx.tag("documented-shape:" + fnm)
+            ctx.api(nm_)
+            got_ = call(f_, fo.copy(), fs_.copy())
+            if isinstance(got_, Exception):
+                ctx.extra[f"shape-refused:{nm_}:{fnm}"] += 1
+                continue
+            ctx.check("scores.documented-shape", same_result(got_, basev[j_], 1e-9, atol_),
+                      f"{nm_}|result-depends-on-documented-shape|{fnm}", case,
+                      lambda: {"as_vectors": repr(basev[j_]), "this_shape": repr(got_)})
     if basev is not None and len(obs) <= 60 and not excl:
         ctx.reuse("scores", allscores, [obs, sim], basev, case, rtol=1e-9,
                   atol=1e-10 * c * (1 + float(np.max(np.abs(tov))) +
